@@ -25,7 +25,7 @@ class Shape:
     """(size, capacity) of A and of B (None = B does not exist); growth policy of the library as read from the source"""
     def __init__(self, kind):
         self.kind = kind; self.n0 = {'vec': 0, 'stk': 0, 'sv2': 2, 'sv4': 4, 'dyn': 0}[kind]
-        self.A = (0, self.n0); self.B = None
+        self.A = (0, self.n0); self.B = None; self.peak = 0        # peak: largest size any container had along the prefix
     def key(self): return (self.A, self.B)
     def grow(self, st, need):
         s, c = st
@@ -88,7 +88,7 @@ def run_script(kind, toks):
     for t in toks:
         c = sh.apply(t)
         if c is None: return None, None
-        codes.append(c)
+        codes.append(c); sh.peak = max(sh.peak, sh.A[0], sh.B[0] if sh.B else 0)
     return sh, codes
 
 # operation -> (class bit in the harness, containers that have it, precondition on the shape)
@@ -122,9 +122,9 @@ def lens_for(kind, sh, cap_len):
     cand = {0, s - 1, s, s + 1, c, c + 1} if kind != 'dyn' else {0, 1, 2, s, s + 1}
     return sorted(x for x in cand if 0 <= x <= max(cap_len, c + 1))
 def lens2_for(kind, sh):
-    """value-taking resize overloads: shrink to nothing, grow by >= 1 inside the capacity (two new elements when there is room), grow beyond the capacity"""
+    """value-taking resize overloads: shrink to nothing, grow by two elements (the argument is used for more than one element), grow beyond the capacity"""
     s, c = sh.A
-    return sorted({0, min(s + 2, c) if c > s else s, c + 1})
+    return sorted({0, s + 2, max(c + 1, s + 2)})
 
 P = ['push']
 FULL, BINARY, GROWTH, GROWTH_B = 0xFFFF, 0x1FA, 0x01F, 0x11F
@@ -183,7 +183,7 @@ def seq_q(c, trk, toks, K, tier, opmask=FULL, tag=''):
     maxn = smax + K + 1                                    # every operation may grow a container by one; resize may go further (lens below)
     lens = lens_for(c, sh, maxn + 1)
     lens2 = lens2_for(c, sh) if c in ('vec', 'sv2', 'sv4') else [0]
-    maxn = max([maxn] + lens + lens2)
+    maxn = max([maxn, sh.peak] + lens + lens2)
     nblk = len(codes) + K + 2
     u = uname(c, trk)
     tag = MASKTAG.get(opmask, '.m%x' % opmask) + tag
@@ -194,8 +194,8 @@ def seq_q(c, trk, toks, K, tier, opmask=FULL, tag=''):
     if opmask != FULL: defs['OPMASK0'] = '0x%xu' % opmask
     defs['EXPECT_OPS'] = '0x%xu' % expected_ops(c, sh, opmask)
     shape = 'A: size %d capacity %d' % sh.A + ('; B: size %d capacity %d' % sh.B if sh.B else '; B: not constructed')
-    return Q(name, u, 'c13_seq.c', 'harness', defs=defs, unwind=max(2 * maxn + 3, nblk + 2, 6), unwind_fn=[(r'^ir2c_mem', 8 * maxn + 10)], extra=['--object-bits', '12', '--slice-formula'], inline_witness=True,
-             timeout=900 if K == 1 else 2400, mem_gb=5 if K == 1 else 8,
+    return Q(name, u, 'c13_seq.c', 'harness', defs=defs, unwind=max(2 * maxn + 3, nblk + 2, 6), unwind_fn=[(r'^ir2c_mem', 8 * maxn + 10), (r'^c13_keep_inputs', 400)], extra=['--object-bits', '12', '--slice-formula'], inline_witness=True,
+             timeout=2400, mem_gb=5 if K == 1 else 8,
              bounds={'container': CONT_NAME[c], 'T': 'tracked (observable copy/move, lifetime registry)' if trk else 'int', 'allocator': 'vp_allocator (exact-size blocks, block registry)',
                      'concrete prefix from the constructor': ' '.join(toks) or '(none)', 'shape before the symbolic part (model)': shape,
                      'solver-chosen operations after the prefix': K, 'operation classes offered to the %ssolver-chosen operation' % ('first ' if K > 1 else ''): MASKNAME.get(opmask, 'classes 0x%x of harness/c13_seq.c' % opmask),
@@ -204,7 +204,10 @@ def seq_q(c, trk, toks, K, tier, opmask=FULL, tag=''):
              what='%s<%s>: from the shape reached by [%s], every sequence of %d operation(s) of the whole public API keeps every accessor equal to the reference sequence, '
                   'touches only owned storage, and after destruction nothing is alive or allocated' % (c, TN[trk], ' '.join(toks) or 'constructor', K))
 
-CLASSES = [M_PUSH, M_POP | M_CLEAR | M_SET, M_RESIZE, M_COPY, M_MOVE, M_SWAP | M_B | M_CTORN]
+def big_mask(c, toks):
+    """thorough tier: whole API everywhere except on the large threshold shapes (>= 6 elements), where the growth-related classes are offered"""
+    sh, _ = run_script(c, toks)
+    return GROWTH if c != 'stk' and max(sh.A[0], sh.B[0] if sh.B else 0) >= 6 else FULL
 def seq_queries(tier, trks=(0, 1)):
     qs = []
     for c in CONTS:
@@ -212,28 +215,25 @@ def seq_queries(tier, trks=(0, 1)):
             done = set()
             for (toks, mask, with_int) in QUICK_SCRIPTS[c]:
                 if tier == 'quick' and trk == 0 and not with_int: continue      # quick: T=int on the core shapes, T=tracked (a superset of the observations) on all
-                qs.append(seq_q(c, trk, toks, 1, tier, mask if tier == 'quick' else (GROWTH if len(toks) >= 6 and c != 'stk' else FULL))); done.add(tuple(toks))
+                qs.append(seq_q(c, trk, toks, 1, tier, mask if tier == 'quick' else big_mask(c, toks))); done.add(tuple(toks))
             if tier == 'thorough':
                 smax = {'vec': 4, 'sv2': 4, 'sv4': 6, 'dyn': 3, 'stk': 4}[c]
-                extra = bfs_scripts(c, 4, smax, 60) + {'vec': [P * 7, P * 14], 'sv2': [P * 7, P * 14], 'sv4': [P * 10, P * 11], 'stk': [P * 7, P * 14]}.get(c, [])
+                extra = bfs_scripts(c, 3, smax, 40) + {'vec': [P * 7, P * 14], 'sv2': [P * 7, P * 14], 'sv4': [P * 10, P * 11], 'stk': [P * 7, P * 14]}.get(c, [])
                 for toks in extra:
                     if tuple(toks) in done: continue
-                    done.add(tuple(toks)); qs.append(seq_q(c, trk, toks, 1, tier, GROWTH if len(toks) >= 6 and c != 'stk' else FULL))
-                # two solver-chosen operations: the first one restricted to one class per query (all classes covered), the second one from the whole API
-                for toks in ([], P * 2):
-                    sh, _ = run_script(c, toks)
-                    if sh is None: continue
-                    for cls in CLASSES:
-                        if expected_ops(c, sh, cls): qs.append(seq_q(c, trk, toks, 2, tier, cls))
+                    done.add(tuple(toks)); qs.append(seq_q(c, trk, toks, 1, tier, big_mask(c, toks)))
+                # two solver-chosen operations (the cases multiply: only affordable for the small API of stack; for the others the shape prefixes carry the depth)
+                if c == 'stk':
+                    for toks in ([], P * 2): qs.append(seq_q(c, trk, toks, 2, tier, FULL))
     return qs
 
 def list_queries(tier, trks=(0, 1)):
     qs = []
-    cfgs = [(0, 3), (3, 2)] if tier == 'quick' else [(0, 5), (3, 4), (6, 3)]
+    cfgs = [(0, 3), (3, 2)] if tier == 'quick' else [(0, 4), (3, 3), (6, 2)]
     for trk in trks:
         u = 'c13_list_%s' % TN[trk]
         for (p, k) in cfgs:
-            qs.append(Q('list.%s.p%d.k%d' % (TN[trk], p, k), u, 'c13_list.c', 'harness', defs={'C13_UNIT': u, 'C13_TRK': trk, 'P': p, 'K': k}, unwind=p + k + 3, extra=['--object-bits', '12', '--slice-formula'], inline_witness=True,
+            qs.append(Q('list.%s.p%d.k%d' % (TN[trk], p, k), u, 'c13_list.c', 'harness', defs={'C13_UNIT': u, 'C13_TRK': trk, 'P': p, 'K': k}, unwind=p + k + 3, unwind_fn=[(r'^c13_keep_inputs', 400)], extra=['--object-bits', '12', '--slice-formula'], inline_witness=True,
                         timeout=900, mem_gb=4,
                         bounds={'container': 'frg::list<T,A>', 'T': 'tracked' if trk else 'int', 'concrete prefix': '%d x emplace_back' % p, 'solver-chosen operations': k,
                                 'operations': 'emplace_back(ctor args), emplace_back(const T&), pop_front, write through front(), destroy (possibly non-empty) + default-construct'},
@@ -259,6 +259,8 @@ def ilist_queries(tier):
     return qs
 
 def queries(tier):
+    global VALIDATE_VECTORS
+    VALIDATE_VECTORS = 60 if tier == 'quick' else 300
     return seq_queries(tier) + list_queries(tier) + ilist_queries(tier)
 
 def queries_c16(tier):
@@ -280,7 +282,7 @@ def validation_queries(tier):
     vs.append(Q('validate.ilist.script', 'c13_ilist', 'c13_ilist.c', 'harness_script', defs={'M': 0, 'M2': 0, 'NN': 8}))
     vs.append(Q('validate.ilist.step', 'c13_ilist', 'c13_ilist.c', 'harness', defs={'M': 3, 'M2': 2, 'NN': 6}))
     return vs
-VALIDATE_VECTORS = 120
+VALIDATE_VECTORS = 60
 LEVEL = 'model_checking'
 TECHNIQUE = ('CBMC bounded model checking of the clang-lowered code with standard pointer checks on. Array-like containers and frg::list: concrete history prefix from the '
              'constructor (fixes sizes/capacities/storage mode, crosses growth thresholds; element values symbolic) followed by K solver-chosen operations of the whole public '
@@ -290,12 +292,12 @@ FUNCTION_PATTERNS = [r'frg::', r'^c_', r'^l_', r'^il_']
 ASSUMPTIONS = [
     'callers respect the documented preconditions: pop/pop_back/front/back/top/pop_front only on a non-empty container, operator[](i) only with i < size(), insert/erase only with iterators of the same list, push/insert only of a node that is in no list',
     'allocation never fails (vp_allocator returns exact-size blocks from malloc; --no-malloc-may-fail)',
+    'T=tracked: besides the in-object lifetime state of vp_track.h, harness/c13_seq.c records the construction address of every element in its padding bytes and checks it at every later use, so that a bytewise relocation (no constructor call) of a live element is a violation',
     'a moved-from container is "valid but unspecified": whatever size/contents it reports afterwards becomes its reference (it must be self-consistent, own what it reports and be destroyed cleanly)',
     'array-like containers: the symbolic operations start from the shapes reached by the listed concrete prefixes; behaviour is a function of (size, capacity, storage mode, contents) and the contents are symbolic',
     'intrusive_list pre-state: any assignment of _front/_back/next/previous/in_list that forms two disjoint well-formed doubly linked lists over the node objects (every permutation of node objects), other hooks reset; Inv is re-established by every operation (checked) and checked on random reachable states by the validation script',
     'frg::list / intrusive_list are not copied: the implicitly generated copy operations are shallow (two owners of the same nodes) and outside the sequence abstraction',
 ]
-OUTSIDE = ['containers with more elements than the stated per-query maximum (quick: up to 8, thorough: up to 16)', 'more than K solver-chosen operations after a prefix, prefixes other than the listed ones',
+OUTSIDE = ['containers with more elements than the stated per-query maximum (quick: up to 8, thorough: up to 16)', 'vector / small_vector / dyn_array: more than ONE solver-chosen operation after a prefix (the cases multiply; depth comes from the prefixes: quick ~10 shapes per container, thorough every shape reachable by <= 3 prefix operations with <= 4..6 elements plus the growth thresholds up to 14 elements); stack: 2; frg::list: up to 5',
            'element types other than int and the instrumented 8-byte `tracked`', 'allocators that fail or that are stateful (allocator propagation on swap/move is not observable with the stateless vp_allocator)',
-           'small_vector::swap / move relocate inline elements bytewise (no move constructor runs): invisible to the in-object lifetime registry, reported in the notes only',
            'shallow implicit copies of frg::list and intrusive_list', 'vector::detach() followed by use of the detached buffer beyond destroying and freeing it']
